@@ -1,6 +1,7 @@
 package gen
 
 import (
+	"bytes"
 	"crypto/ecdsa"
 	"encoding/json"
 	"crypto/elliptic"
@@ -119,16 +120,11 @@ func mutateRegion(b []byte, p Params, rng *rand.Rand) {
 		return
 	}
 	r2 := rand.New(rand.NewSource(p.Seed ^ int64(p.MutBit)*2654435761))
-	changed := false
+	orig := append([]byte{}, b...)
 	for i := 0; i < p.MutMulti; i++ {
-		j := r2.Intn(len(b))
-		v := byte(r2.Intn(256))
-		if v != b[j] {
-			changed = true
-		}
-		b[j] = v
+		b[r2.Intn(len(b))] = byte(r2.Intn(256))
 	}
-	if !changed {
+	if bytes.Equal(b, orig) { // nothing changed in the end (a later write may have restored an earlier one): change one bit
 		b[r2.Intn(len(b))] ^= 0x01
 	}
 }
